@@ -283,6 +283,16 @@ func (la *lockAnalysis) lockOp(ci ssa.CallInstruction) (base ssa.Value, op strin
 		return nil, "", false
 	}
 	fa, isFA := cc.Args[0].(*ssa.FieldAddr)
+	if !isFA && la.spec.Type == nil {
+		// a mutex held by pointer (lock *sync.RWMutex): x.lock.Lock() operates on the loaded field
+		if ld, ok := cc.Args[0].(*ssa.UnOp); ok && ld.Op == token.MUL {
+			if pfa, ok := ld.X.(*ssa.FieldAddr); ok {
+				if pt, ok := pfa.Type().(*types.Pointer).Elem().(*types.Pointer); ok && isMutexType(pt.Elem()) {
+					return pfa, f.Name(), true
+				}
+			}
+		}
+	}
 	if !isFA {
 		return nil, "", false
 	}
